@@ -29,7 +29,8 @@ func readRPMPackage(data []byte) (r *rpm.PackageFile, err error) {
 // length exceeds the bytes that follow, or whose entries together announce more items than the store has bytes
 // (every item occupies at least one byte of the store and entries do not overlap). go-rpm allocates
 // make([]T, ItemCount) straight from the file for every entry, so a 150-byte file could otherwise demand
-// gigabytes, and many entries pointing at the same bytes an amount quadratic in the file size.
+// gigabytes, and many entries pointing at the same bytes (strings are copied once per entry) an amount quadratic
+// in the file size: the bytes the values occupy are therefore summed as well.
 func rpmCountsPlausible(data []byte) bool {
 	off := 96 // the lead
 	for h := 0; h < 2; h++ {
@@ -42,11 +43,37 @@ func rpmCountsPlausible(data []byte) bool {
 		if n > avail/16 || l > avail-16*n {
 			return false
 		}
-		items := uint64(0)
+		store := data[uint64(off)+16+16*n : uint64(off)+16+16*n+l]
+		items, extent := uint64(0), uint64(0)
 		for i := uint64(0); i < n; i++ {
 			e := data[uint64(off)+16+16*i:]
-			items += uint64(binary.BigEndian.Uint32(e[12:16]))
+			typ, o, count := binary.BigEndian.Uint32(e[4:8]), uint64(binary.BigEndian.Uint32(e[8:12])), uint64(binary.BigEndian.Uint32(e[12:16]))
+			items += count
 			if items > l {
+				return false
+			}
+			// the bytes of the store the entry's values occupy; values of different entries do not overlap, so
+			// together they cannot exceed the store either (go-rpm copies every value, strings included)
+			switch typ {
+			case 1, 2, 7: // CHAR, INT8, BIN
+				extent += count
+			case 3: // INT16
+				extent += 2 * count
+			case 4: // INT32
+				extent += 4 * count
+			case 5: // INT64
+				extent += 8 * count
+			case 6, 8, 9: // STRING, STRING_ARRAY, I18NSTRING: count NUL-terminated strings starting at the offset
+				for s := uint64(0); s < count && o < l && extent <= l; s++ {
+					j := bytes.IndexByte(store[o:], 0)
+					if j < 0 {
+						j = len(store[o:])
+					}
+					extent += uint64(j) + 1
+					o += uint64(j) + 1
+				}
+			}
+			if extent > l {
 				return false
 			}
 		}
